@@ -220,7 +220,10 @@ class Run:
 
                     def set_conditions(self, symbol, conditions):
                         pass      # run_.lend is the single source (set_cond actions update it)
-                ls = OwnConditions(self.lend["quote"])
+                # the base class is configured too, leniently (no requirement at all): what counts is the override
+                lenient = dict(self.lend["default"] or {"interest_symbol": self.lend["quote"], "pct": "0", "period_s": 0, "min": "0"},
+                               req="0")
+                ls = OwnConditions(self.lend["quote"], default_conditions=mk(lenient))
                 self.stats["lend_style_subclass"] += 1
             elif ls is None:
                 ls = lending.MarginLoans(self.lend["quote"],
@@ -305,11 +308,13 @@ class Run:
                 kw2["lending_strategy"] = lending.MarginLoans(self.lend["quote"], default_conditions=self._mk_cond(
                     {"interest_symbol": self.lend["quote"], "pct": "99", "period_s": 60, "min": "1", "req": "5"}))
             decoy = exchange.Exchange(d2, {s_: D(5) for s_ in self.symbols}, **kw2)
+            def other(p_):
+                return p_ - 2 if p_ >= 2 else p_ + 3       # coarser where possible, finer otherwise: never the same
             for s_, p_ in self.symbols.items():
-                decoy.set_symbol_precision(s_, min(p_ + 3, 12))
+                decoy.set_symbol_precision(s_, other(p_))
             for pname, pr in self.pairs.items():
                 bp_, qp_ = self.pair_prec(pname)
-                decoy.set_pair_info(pr, PairInfo(min(bp_ + 3, 12), min(qp_ + 3, 12)))
+                decoy.set_pair_info(pr, PairInfo(other(bp_), other(qp_)))
             self.decoy = decoy
         for job in sc.get("jobs", []):
             when = T(job["t"]) + (datetime.timedelta(minutes=30) if job.get("half") else datetime.timedelta(0)) + \
